@@ -26,6 +26,22 @@ pub fn generate(tier: &str, rng: &mut Rng) -> Vec<String> {
         // prefix split across chunks
         out.push(format!("dec resp200 none {} 8192 8 Z 0 EV d{} p d{}", maxs, &hex(&b[..9])[1..], &hex(&b[9..])[1..]));
     }
+    // rev1 S2: `Encoder::encode` fails on the second item after writing part of it — nothing of
+    // that item (neither the reserved 5-byte header nor the partial payload) may be sent, the first
+    // item is still delivered, then INTERNAL
+    for server in [true, false] {
+        for comp in [None, Some(tonic::codec::CompressionEncoding::Gzip)] {
+            for yield_thr in [0usize, 32768] {
+                for k in [0usize, 2, 3] {
+                    out.push(
+                        EncCase { server, comp, disable: false, yield_thr, buf_size: 8192, max: None,
+                                  evs: vec!["i0102".into(), format!("f{}.ee0304", k), "i05".into()],
+                                  items: vec![vec![1, 2], vec![5]], extra_polls: 4 }.line(),
+                    );
+                }
+            }
+        }
+    }
     let n = if thorough { 30000 } else { 2500 };
     for _ in 0..n {
         let e = rng.chance(1, 3);
